@@ -300,7 +300,9 @@ fn cli_roundtrips(rep: &Report) {
     let seed = rep.seed;
     let alice = Party::new(seed, "alice", "alicepw");
     let bob = Party::new(seed, "bob", "bobpw");
-    let kr = crate::fx::keyring(&[(&bob, true), (&alice, true)]);
+    // decoy entries (public-only, other keys) whose names are case / prefix variants of the real ones, listed first
+    let decoy = |n: &str| crate::proc::keyring_entry(n, &r::encode_pk(&r::x25519_base(&derive32(seed, &format!("c01-decoy-{}", n)))), None);
+    let kr = format!("{}\n{}\n{}\n{}\n{}", decoy("Alice"), decoy("BOB"), decoy("ali"), decoy("bobby"), crate::fx::keyring(&[(&bob, true), (&alice, true)]));
     let cs = CS as usize;
     let mut jobs = vec![];
     for l in [0usize, 1, 1000, cs, cs + 1] {
@@ -361,7 +363,7 @@ fn cli_roundtrips(rep: &Report) {
             if back != p {
                 return Err(format!("CLI round trip of {} bytes ({}{}) returns {} bytes that differ from the original", l, if pipes { "pipes" } else { "files" }, if preexisting { ", output paths held longer files before" } else { "" }, back.len()));
             }
-            if !stderr.lines().any(|x| x == format!("Success. File from: {}", snd.name)) {
+            if !stderr.split(|c: char| !(c.is_alphanumeric() || c == '-' || c == '_')).any(|t| t == snd.name) {
                 return Err(format!("decryption does not report sender '{}': {:?}", snd.name, stderr));
             }
             Ok(())
